@@ -33,8 +33,13 @@ UniformKVs(p) == IF p > 5 THEN {} ELSE {GenerateKV(p, nc, FALSE) : nc \in (p + 1
 RawKVs(p) == IF p > 3 THEN {} ELSE
    {AffineKV(U, ab[1], ab[2]) : U \in {MkClamped(p, KVals, pat) : pat \in Patterns(p, KVals, 2)}, ab \in Affines}
 
+\* long knot vectors (9..12 distinct interior values), uniform or clustered towards one end, simple or double knots
+LongVals == {[i \in 1..9 |-> R(i, 10)], [i \in 1..12 |-> R(i, 16)],
+             <<R(1,2), R(5,8), R(3,4), R(13,16), R(7,8), R(29,32), R(15,16), R(31,32), R(63,64)>>,
+             <<R(1,64), R(1,32), R(1,16), R(3,32), R(1,8), R(3,16), R(1,4), R(3,8), R(1,2), R(3,4)>>}
+LongKVs(p) == {MkClamped(p, v, [i \in 1..Len(v) |-> IF p >= 2 /\ i % m = 0 THEN 2 ELSE 1]) : v \in LongVals, m \in {3, 20}}
 SpanOnlyKVs(p) == IF p > 3 THEN {} ELSE
-   {MkClamped(p, KVals, pat) : pat \in Patterns(p, KVals, SpanInterior)} \ ClampedKVs(p)
+   ({MkClamped(p, KVals, pat) : pat \in Patterns(p, KVals, SpanInterior)} \ ClampedKVs(p)) \cup LongKVs(p)
 KVCases == UNION {{[p |-> p, U |-> U, kind |-> "clamped"] : U \in ClampedKVs(p)}
                   \cup {[p |-> p, U |-> U, kind |-> "uniform"] : U \in UniformKVs(p)}
                   \cup {[p |-> p, U |-> U, kind |-> "raw"] : U \in RawKVs(p)}
